@@ -1,7 +1,7 @@
 (* Completeness of the RREL search (Model/Rrel.v) with the visited set and prevent_doubles:
    every failed search leaves a set of visited keys that passes the closure check closure_ok,
    hence (Proofs/RrelProofs.v, closure_complete) no justified result exists. *)
-From TxV Require Import Core.Base Model.RrelSyntax Model.Rrel Proofs.RrelProofs.
+From TxV Require Import Core.Base Gen.SrcRrel Model.RrelSyntax Model.Rrel Proofs.RrelProofs.
 
 (* ------------------------------------------------------------ the visited set only grows *)
 Definition vmonoc (f : st -> res * st) : Prop :=
@@ -633,4 +633,120 @@ Section Complete.
         * apply memk_of_In. apply Hi. apply (proj1 P2). exact Hin1.
         * eapply firsts_in_incl; [exact Hi | exact Hf].
   Qed.
+
+  (* ---------------------------------------------------------- from good keys to the closure check *)
+  Lemma forallb_rule (g : nat * list nat * nat * bool -> bool) pos :
+    (forall k, In k V -> pos_of k = pos -> g k = true) -> forallb g (keys_at V pos) = true.
+  Proof.
+    intro H. apply forallb_forall. intros k Hk. unfold keys_at in Hk. apply filter_In in Hk as [Hin Hp].
+    apply H; [exact Hin | apply pos_eqb_eq; exact Hp].
+  Qed.
+
+  Hypothesis HG : forall k, In k V -> Good k.
+
+  Lemma good_rule pos n H k : Site pos n H -> In k V -> pos_of k = pos -> key_rule n H pos k = true.
+  Proof. intros Hs Hin Hp. pose proof (HG k Hin n H) as Hg. rewrite Hp in Hg. apply Hg. exact Hs. Qed.
+
+  Lemma ck_all :
+    (forall e pos H, Site pos (NElem e) H -> ck_elem F m names0 V pos e H = true) /\
+    (forall p q sq Hq i sq1 j, Site q (NSeq sq) Hq -> alts_from sq i sq1 -> elems_from (head_path sq1) j p ->
+                               ck_path F m names0 V q i j p Hq = true) /\
+    (forall sq1 q sq Hq i, Site q (NSeq sq) Hq -> alts_from sq i sq1 -> ck_alts F m names0 V q i sq1 Hq = true).
+  Proof.
+    apply rrel_mutind.
+    - intros T0 pos H Hs. simpl. unfold base_rule. apply forallb_rule. intros k Hin Hp.
+      exact (good_rule pos _ H k Hs Hin Hp).
+    - intros name consume fixed pos H Hs. simpl. unfold base_rule. apply forallb_rule. intros k Hin Hp.
+      exact (good_rule pos _ H k Hs Hin Hp).
+    - intros n pos H Hs. simpl. unfold base_rule. apply forallb_rule. intros k Hin Hp.
+      exact (good_rule pos _ H k Hs Hin Hp).
+    - intros sq IH pos H Hs.
+      change (ck_elem F m names0 V pos (EBr sq) H) with
+        (br_rule V pos && seq_rule V (0 :: pos) sq && ck_alts F m names0 V (0 :: pos) 0 sq H).
+      rewrite (IH (0 :: pos) sq H 0 (S_br _ _ _ Hs) (af_0 _)).
+      rewrite andb_true_r. apply andb_true_iff. split.
+      + unfold br_rule. apply forallb_rule. intros k Hin Hp. exact (good_rule pos _ H k Hs Hin Hp).
+      + unfold seq_rule. apply forallb_rule. intros k Hin Hp.
+        exact (good_rule (0 :: pos) _ H k (S_br _ _ _ Hs) Hin Hp).
+    - intros sq IH pos H Hs.
+      change (ck_elem F m names0 V pos (EStar sq) H) with
+        (star_rule F m names0 V pos (sl_seq sq) (sr_seq sq) H && seq_rule V (0 :: pos) sq
+         && ck_alts F m names0 V (0 :: pos) 0 sq (hnext V pos)).
+      rewrite (IH (0 :: pos) sq (hnext V pos) 0 (S_star _ _ _ Hs) (af_0 _)).
+      rewrite andb_true_r. apply andb_true_iff. split.
+      + unfold star_rule. apply forallb_rule. intros k Hin Hp. exact (good_rule pos _ H k Hs Hin Hp).
+      + unfold seq_rule. apply forallb_rule. intros k Hin Hp.
+        exact (good_rule (0 :: pos) _ _ k (S_star _ _ _ Hs) Hin Hp).
+    - intros e IH q sq Hq i sq1 j Hs Ha He.
+      change (ck_path F m names0 V q i j (P1 e) Hq) with (ck_elem F m names0 V (j :: i :: q) e Hq).
+      apply IH. eapply S_last; eauto.
+    - intros e IHe p IHp q sq Hq i sq1 j Hs Ha He.
+      change (ck_path F m names0 V q i j (PCons e p) Hq) with
+        (ck_elem F m names0 V (j :: i :: q) e (hnext V (S j :: i :: q)) && ck_path F m names0 V q i (S j) p Hq).
+      apply andb_true_iff. split.
+      + apply IHe. eapply S_mid; eauto.
+      + eapply IHp; eauto. eapply ef_S; eauto.
+    - intros p IHp q sq Hq i Hs Ha.
+      change (ck_alts F m names0 V q i (S1 p) Hq) with (ck_path F m names0 V q i 0 p Hq).
+      eapply IHp; eauto. apply ef_0.
+    - intros p IHp sq' IHa q sq Hq i Hs Ha.
+      change (ck_alts F m names0 V q i (SCons p sq') Hq) with
+        (ck_path F m names0 V q i 0 p Hq && ck_alts F m names0 V q (S i) sq' Hq).
+      apply andb_true_iff. split.
+      + eapply IHp; eauto. apply ef_0.
+      + eapply IHa; eauto. eapply af_S; eauto.
+  Qed.
 End Complete.
+
+(* every failed search leaves a closed set of visited keys *)
+Theorem fowp_closed F m sq o names T s :
+  fowp F m true sq o names T = (RNone, s) -> closure_ok F m names (vis s) sq o T = true.
+Proof.
+  intro Hev. unfold fowp in Hev.
+  destruct (main F m names T sq (vis s)) as [_ [_ Hs]]. destruct (Hs sq) as [Ha _].
+  assert (Hpre : Pre m names T sq (vis s) (fun _ => False) (fun _ => False) (mk o names []) st0).
+  { split; [exists []; reflexivity|]. split; [intros u []|]. split; [intros e []|]. intros e []. }
+  assert (Hkc : KC F m names T sq (vis s) (final m T) (hfinal m T) (fun _ => False)).
+  { split.
+    - intros c s1. unfold final. destruct (c_names c); [destruct (conf_opt m T (c_obj c))|]; simpl; apply vm_refl.
+    - intros c s1 s1' X _ _ _ Hpd Hf _. unfold final in Hf. unfold hfinal.
+      destruct (c_names c) as [|n ns].
+      + destruct (conf_opt m T (c_obj c)); [discriminate|]. inversion Hf; subst.
+        split; [apply Post_refl|]. split; [exact Hpd | reflexivity].
+      + inversion Hf; subst. split; [apply Post_refl|]. split; [exact Hpd | reflexivity]. }
+  destruct (Ha [] sq (hfinal m T) 0 true (mk o names []) (final m T) st0 s (fun _ => False) (fun _ => False)
+               (S_root m T sq (vis s)) (af_0 sq) Hpre Hkc Hev (incl_refl _)) as [[_ [_ Hg]] [_ Hf]].
+  unfold closure_ok. simpl in Hf. rewrite Hf. simpl.
+  destruct (ck_all F m names T sq (vis s)) as [_ [_ Hck]].
+  - intros k Hk. destruct (Hg k Hk) as [[]|G]. exact G.
+  - apply (Hck sq [] sq (hfinal m T) 0 (S_root m T sq (vis s)) (af_0 sq)).
+Qed.
+
+(* completeness of find: under unique sibling names, "not found" means that no expansion of the
+   expression reaches a conforming object with all name parts consumed *)
+Theorem find_complete F m sq o names T px :
+  siblings_unique m -> find F m true sq o names T px = FNone ->
+  forall t tr, ~ justified m sq o names T t tr.
+Proof.
+  intros Hu Hf. apply find_none_fowp in Hf.
+  destruct (fowp F m true sq o names T) as [r s] eqn:E. simpl in Hf. subst r.
+  eapply closure_complete; [exact Hu | eapply fowp_closed; exact E].
+Qed.
+
+Theorem find_certified_always F m sq o names T :
+  fst (fowp F m true sq o names T) = RNone -> find_certified F m true sq o names T = true.
+Proof.
+  intro H. unfold find_certified. destruct (fowp F m true sq o names T) as [r s] eqn:E. simpl in *. subst r.
+  eapply fowp_closed; exact E.
+Qed.
+
+Theorem find_complete_exists F m sq o names T px :
+  siblings_unique m -> (exists t tr, justified m sq o names T t tr) ->
+  find F m true sq o names T px <> FNone.
+Proof. intros Hu [t [tr Hj]] Hf. exact (find_complete F m sq o names T px Hu Hf t tr Hj). Qed.
+
+(* the same for the key form read from the source *)
+Theorem find_complete_src F m sq o names T px :
+  siblings_unique m -> find F m (key_has_first src_facts) sq o names T px = FNone ->
+  forall t tr, ~ justified m sq o names T t tr.
+Proof. rewrite src_key_form. apply find_complete. Qed.
